@@ -142,6 +142,8 @@ def inline_constants(tree, ref_assigned):
                 if isinstance(ch, ast.Name) and isinstance(ch.ctx, ast.Load) and ch.id in cands and ch.id not in shadow:
                     new = ast.copy_location(copy.deepcopy(cands[ch.id]), ch)
                     _relocate(new, ch)
+                    for x_ in ast.walk(new):
+                        x_._inl = True
                     if isinstance(val, list):
                         val[i] = new
                     else:
@@ -154,7 +156,50 @@ def inline_constants(tree, ref_assigned):
                 visit(ch, sh)
     visit(tree, frozenset())
     # the definitions stay (harmless); exception handlers `except NAME:` were substituted like any other load
+    fold_inlined(tree)
     return n
+
+
+class _FoldInlined(ast.NodeTransformer):
+    """integer arithmetic and f-string pieces whose operands are inlined constants are folded (`1 + 20` -> `21`, `{x:0{8}d}` -> `{x:08d}`); expressions the
+    maintainer did not touch are left as written"""
+
+    def visit_BinOp(self, node):
+        self.generic_visit(node)
+        l, r = node.left, node.right
+        if isinstance(l, ast.Constant) and isinstance(r, ast.Constant) and type(l.value) is int and type(r.value) is int and (getattr(l, "_inl", False) or getattr(r, "_inl", False)):
+            try:
+                v = {ast.Add: lambda: l.value + r.value, ast.Sub: lambda: l.value - r.value, ast.Mult: lambda: l.value * r.value,
+                     ast.LShift: lambda: l.value << r.value if 0 <= r.value < 512 else None, ast.FloorDiv: lambda: l.value // r.value if r.value else None}.get(type(node.op), lambda: None)()
+            except Exception:
+                v = None
+            if v is not None:
+                c = ast.copy_location(ast.Constant(value=v), node)
+                c._inl = True
+                return c
+        return node
+
+    def visit_JoinedStr(self, node):
+        self.generic_visit(node)
+        vals, changed = [], False
+        for v in node.values:
+            if isinstance(v, ast.FormattedValue) and isinstance(v.value, ast.Constant) and getattr(v.value, "_inl", False) and v.conversion == -1 and v.format_spec is None and \
+                    type(v.value.value) in (int, str):
+                v = ast.copy_location(ast.Constant(value=str(v.value.value)), v)
+                changed = True
+            if vals and isinstance(v, ast.Constant) and isinstance(vals[-1], ast.Constant) and isinstance(v.value, str) and isinstance(vals[-1].value, str):
+                vals[-1] = ast.copy_location(ast.Constant(value=vals[-1].value + v.value), vals[-1])
+                changed = True
+            else:
+                vals.append(v)
+        if changed:
+            node.values = vals
+        return node
+
+
+def fold_inlined(tree):
+    _FoldInlined().visit(tree)
+
 
 
 # ------------------------------------------------------------------------------------------------------------------ helper functions
@@ -675,6 +720,7 @@ def inline_temporaries(fn, ref_names, keep=()):
                 sub = _Subst({v: st.value})
                 for j in range(i + 1, len(seq)):
                     seq[j] = sub.visit(seq[j])
+                    fold_inlined(seq[j])
                 del seq[i]
                 removed += 1
                 done = True
@@ -887,13 +933,60 @@ def _loop_to_comprehension(fn):
     return n
 
 
+def _split_tuple_assigns(fn):
+    """`a, b = X, Y` -> `a = X` ; `b = Y` when Y does not read a (and no target is read by a later value)"""
+    n = 0
+    for parent, field, seq in list(_blocks(fn)):
+        i = 0
+        while i < len(seq):
+            st = seq[i]
+            if isinstance(st, ast.Assign) and len(st.targets) == 1 and isinstance(st.targets[0], ast.Tuple) and isinstance(st.value, ast.Tuple) and \
+                    len(st.targets[0].elts) == len(st.value.elts) and all(isinstance(t, ast.Name) for t in st.targets[0].elts):
+                tg = [t.id for t in st.targets[0].elts]
+                ok = True
+                for k, v in enumerate(st.value.elts):
+                    reads = {x.id for x in ast.walk(v) if isinstance(x, ast.Name)}
+                    if reads & set(tg[:k]):
+                        ok = False
+                if ok:
+                    new = [ast.copy_location(ast.Assign(targets=[t], value=v, type_comment=None), st) for t, v in zip(st.targets[0].elts, st.value.elts)]
+                    seq[i:i + 1] = new
+                    n += 1
+                    i += len(new) - 1
+            i += 1
+    return n
+
+
+def _merge_assigns(fn):
+    """consecutive `a = X` ; `b = Y` ; … -> `a, b, … = X, Y, …` for maximal runs of plain assignments to names whose values do not read an earlier target of the run"""
+    n = 0
+    for parent, field, seq in list(_blocks(fn)):
+        i = 0
+        while i < len(seq):
+            run = []
+            j = i
+            while j < len(seq) and isinstance(seq[j], ast.Assign) and len(seq[j].targets) == 1 and isinstance(seq[j].targets[0], ast.Name):
+                reads = {x.id for x in ast.walk(seq[j].value) if isinstance(x, ast.Name)}
+                if reads & {s_.targets[0].id for s_ in run}:
+                    break
+                run.append(seq[j])
+                j += 1
+            if len(run) >= 2:
+                tup = ast.Assign(targets=[ast.Tuple(elts=[s_.targets[0] for s_ in run], ctx=ast.Store())], value=ast.Tuple(elts=[s_.value for s_ in run], ctx=ast.Load()), type_comment=None)
+                seq[i:j] = [ast.copy_location(tup, run[0])]
+                ast.fix_missing_locations(seq[i])
+                n += 1
+            i += 1
+    return n
+
+
 def try_idioms(fn, names_of, skeleton_of, want_skeleton, sigs=None, owner_class=None):
     """if rewriting the library idioms of `fn` into their sibling forms makes the unit structurally identical to the reference unit, adopt the rewrite"""
     from .alpha import _Positional
     steps = []
     for direction in (0, 1, 2, 3):
         steps.append(("idiom", direction))
-    steps += [("comp2loop", 0), ("loop2comp", 0), ("positional", 0), ("positional", 1)]
+    steps += [("comp2loop", 0), ("loop2comp", 0), ("split", 0), ("merge", 0), ("positional", 0), ("positional", 1)]
     # single steps first, then positional combined with each (keyword spelling is the commonest companion of another edit)
     plans = [[s_] for s_ in steps] + [[("positional", d), s_] for d in (0, 1) for s_ in steps if s_[0] != "positional"]
     for plan in plans:
@@ -908,6 +1001,10 @@ def try_idioms(fn, names_of, skeleton_of, want_skeleton, sigs=None, owner_class=
                 k += _comprehension_to_loop(c)
             elif kind == "loop2comp":
                 k += _loop_to_comprehension(c)
+            elif kind == "split":
+                k += _split_tuple_assigns(c)
+            elif kind == "merge":
+                k += _merge_assigns(c)
             elif kind == "positional" and sigs:
                 tr = _Positional(sigs, drop_first=bool(direction), owner_class=owner_class)
                 c = tr.visit(c)
